@@ -289,6 +289,10 @@ def run(f, aliased):
             outs[st[1]] = v
             if aliased and f.outkind == "m2":
                 store[st[1]] = v
+            elif aliased:
+                # zi overlays the first row of the input matrix, as in the in-place call
+                # vnadata_convert(vdp, vdp, VPT_ZIN) makes: zi[k] is the cell in[0][k]
+                store[(0, st[1][0])] = v
     want = [(0, 0), (0, 1), (1, 0), (1, 1)] if f.outkind == "m2" else [(0,), (1,)]
     for w in want:
         if w not in outs:
@@ -373,7 +377,7 @@ def translate_dir(srcdir):
             info = {"name": n, "src": x, "dst": ("zi" if y == "i" else y),
                     "has_z0": f.z0name is not None, "outkind": f.outkind}
             info["sep"] = run(f, False)
-            info["alias"] = run(f, True) if f.outkind == "m2" else info["sep"]
+            info["alias"] = run(f, True)
             acc = []
             for e in info["sep"]:
                 factors(e, acc)
